@@ -28,7 +28,7 @@ ASSUMPTIONS = ["vlib/ps38_fsm.py transcribes PS3.8 Tables 9-6..9-10 faithfully",
                "whether Evt17 actions (AA-4, AA-5, AR-5) additionally shut the local socket"]
 WORKERS = {"quick": 8, "thorough": 8}
 EXHAUSTIVE = {"quick": True, "thorough": True}
-REQUIRE = {"defined_pairs_checked": 3 * 246, "undefined_pairs_checked": 3 * 248, "artim_probes": 700, "pdus_observed_on_wire": 60,
+REQUIRE = {"follow_up_polls": 500, "defined_pairs_checked": 3 * 246, "undefined_pairs_checked": 3 * 248, "artim_probes": 700, "pdus_observed_on_wire": 60,
            "indications_observed": 60, "artim_ops_observed": 60, "closes_observed": 30}
 
 
@@ -293,6 +293,21 @@ def eval_pair(case):
     obs = {"artim_running_probe": artim_running, "state_after": after, "sent": sent.hex()[:120], "eof": eof, "indications": inds, "artim": ops,
            "killed": killed, "raised": type(raised).__name__ if raised else None}
     mk = "%s@%s" % (event, state)
+    # the event's own input must be used up by the action: whatever is still queued for the provider is polled again by the
+    # next reactor iteration and must then be an event that is defined for the state the action led to
+    if action is not None and raised is None and not killed:
+        try:
+            while not dul.event_queue.empty():
+                dul.event_queue.get(False)
+            if dul._process_recv_primitive():
+                ev2 = dul.event_queue.get(False)
+                counters["follow_up_polls_with_event"] = 1
+                if ps38_fsm.TABLE.get((after, ev2)) is None:
+                    viol.append({"key": "phantom-event|%s|%s@%s" % (action, ev2, after),
+                                 "detail": "%s: after the action the provider queue still holds a primitive that the next iteration turns into %s in %s (undefined)" % (mk, ev2, after)})
+            counters["follow_up_polls"] = 1
+        except Exception as exc:
+            viol.append({"key": "phantom-event|%s|poll-raises-%s" % (action, type(exc).__name__), "detail": "%s: %r" % (mk, exc)})
 
     if action is None:
         counters["undefined_pairs_checked"] = 1
